@@ -202,6 +202,11 @@ def run_case(m, script, ccname, w2c2_options=(), wasm_bytes=None, knobs=None, ni
         if b.error:
             return b.error[0], {'model': model, 'built': b, 'violation': build_violation(m, b, ccname, 'generated module')}
         rc, actual, err = b.run(model.script_lines)
+        if rc != 0 and rc != 'timeout':
+            # an aborting process loses its buffered output: run again unbuffered to locate the failing step
+            rc2, actual2, err2 = b.run(model.script_lines, unbuffered=True)
+            if rc2 != 0:
+                rc, actual, err = rc2, actual2, err2
         mm = e2e.first_mismatch(model.lines, actual)
         info = {'model': model, 'actual': actual, 'rc': rc, 'stderr': err.decode(errors='replace')[-3000:], 'wasm': b.wasm}
         if rc != 0 and mm is None:
@@ -368,7 +373,7 @@ def case_task(wid, seed, params):
             except Exception:
                 pass
             res['violations'].append(case_violation(m2, s2, ccname, st2, info2, opts2))
-            if len(res['violations']) >= 3:
+            if len(res['violations']) >= params.get('max_violations', 1):
                 break
     res['extra'] = dict(res['extra'])
     res['excluded'] = gen.EXCLUDED['snan_immediate']
